@@ -119,3 +119,22 @@ proof fn lemma_lz_bound(l: Seq<bool>, k: int)
         lemma_lz_bound(rest, k);
     }
 }
+
+// reading the control array at position p in [0, nb + WIDTH) of a table with at least one group
+// gives the byte of bucket p % nb (mirror invariant)
+proof fn lemma_mirror_read(t: &RawTableInner, p: int)
+    requires t.shape(), t.mirrored(), 0 <= p < t.nb() + Group::WIDTH,
+    ensures t.nb() >= Group::WIDTH ==> t.ctrl@[p] == t.ctrl@[p % t.nb()],
+{
+    if t.nb() >= Group::WIDTH {
+        let n = t.nb();
+        if p < n {
+            assert(p % n == p) by(nonlinear_arith) requires 0 <= p < n;
+        } else {
+            let j = p - n;
+            assert(0 <= j < Group::WIDTH);
+            assert(t.ctrl@[n + j] == t.ctrl@[j]);
+            assert(p % n == j) by(nonlinear_arith) requires p == n + j, 0 <= j < n;
+        }
+    }
+}
